@@ -6,10 +6,13 @@ from harness.common import *
 from symtt.ref import ref_full, ref_get, well_formed, multi_indices
 
 
-def h_const(ctx, n, zeros_, keep):
+def h_const(ctx, n, zeros_, keep, as_arrays=False):
     v = ctx.real('v')
     d = len(n)
-    if zeros_ is None:
+    if as_arrays and zeros_ is not None:
+        # index lists given as integer ndarrays (every element access yields a fresh NumPy integer)
+        Y = teneva.const(np.array(n), v, I_zero=np.array(zeros_), i_non_zero=None if keep is None else np.array(keep))
+    elif zeros_ is None:
         Y = teneva.const(n, v)
     else:
         Y = teneva.const(n, v, I_zero=zeros_, i_non_zero=keep)
@@ -31,6 +34,9 @@ def h_const(ctx, n, zeros_, keep):
 def h_const_conflict(ctx, n, zeros_, keep):
     v = ctx.real('v')
     ctx.raises(ValueError, 'conflict_rejected', teneva.const, n, v, zeros_, keep)
+    ctx.raises(ValueError, 'conflict_rejected_arrays', teneva.const, n, v, np.array(zeros_), np.array(keep))
+    big = [[300 + k for k in zeros_[0]]]
+    ctx.raises(ValueError, 'conflict_rejected_large_indices', teneva.const, [400] * len(n), v, big, [int(str(x)) for x in big[0]])
 
 
 def h_delta(ctx, n, i):
@@ -222,6 +228,8 @@ def instances(tier):
     for n, i in [([2, 3], [1, 2]), ([2, 3], [-1, 0]), ([2, 2, 3], [0, -1, -2]), ([1, 2], [0, 1])]:
         out.append({'func': 'h_delta', 'params': {'n': n, 'i': i}})
     out.append({'func': 'h_delta_array_reuse', 'params': {}})
+    for n, zl, keep in [([3, 3, 3], [[1, 1, 0], [1, 1, 2]], [1, 1, 1]), ([2, 3], [[1, 0], [0, 2]], [1, 2]), ([2, 2], [[0, 1]], [1, 1])]:
+        out.append({'func': 'h_const', 'params': {'n': n, 'zeros_': zl, 'keep': keep, 'as_arrays': True}})
     # several listed zeros that agree with the protected index in many modes (satisfiable requests)
     for n, zl, keep in [([3, 3, 3], [[1, 1, 0], [1, 1, 2]], [1, 1, 1]), ([2, 2, 2], [[1, 1, 0], [1, 0, 1], [0, 1, 1]], [1, 1, 1]),
                         ([3, 2], [[1, 0], [1, 1], [2, 1]], [0, 1])]:
